@@ -42,6 +42,8 @@ def rust_text(t, qualify=False):
         return ("std::option::Option" if qualify else "Option") + f"<{rust_text(t['e'])}>"
     if k == "map":
         return ("std::collections::HashMap" if qualify else "HashMap") + f"<{rust_text(t['key'])}, {rust_text(t['val'])}>"
+    if k == "map3":
+        return ("std::collections::HashMap" if qualify else "HashMap") + f"<{rust_text(t['key'])}, {rust_text(t['val'])}, RandomState>"
     if k == "array":
         return f"[{rust_text(t['e'])}; 3]"
     if k == "slice":
@@ -215,7 +217,7 @@ def abs_tree(t):
         return {"k": "seq", "e": abs_tree(t["e"])}
     if k == "option":
         return {"k": "opt", "e": abs_tree(t["e"])}
-    if k == "map":
+    if k in ("map", "map3"):
         return {"k": "map", "key": abs_tree(t["key"]), "val": abs_tree(t["val"])}
     if k == "user":
         return {"k": "user", "n": t["n"], "args": [abs_tree(a) for a in t.get("args", [])]}
@@ -258,7 +260,7 @@ def rust_path(t):
         return k + ":" + t["n"] if k == "prim" else "param"
     if k == "user":
         return "user" + ("<" + ",".join(rust_path(a) for a in t["args"]) + ">" if t.get("args") else "")
-    if k == "map":
+    if k in ("map", "map3"):
         return f"map<{rust_path(t['key'])},{rust_path(t['val'])}>"
     if k == "wrap":
         return f"ptr>{rust_path(t['e'])}"
